@@ -56,7 +56,7 @@ def run(ctx):
     except Exception as ex:
         ctx.oblige("translator t_bonds (three wrap sites of colour_pair.cpp with their periodicity guard)", False, repr(ex))
     common.lean_obligations(ctx, ["Sympler.Bonds", "Props.C19", "symdrv"], ["Props.C19"], THEOREMS, MODULES)
-    n = 40 if not ctx.thorough else 500
+    n = 40 if not ctx.thorough else 2000
     base = os.path.join(common.WORK, "c19-%d" % os.getpid())
     results = []
     if ok and os.path.exists(common.symdrv()):
